@@ -61,6 +61,21 @@ fn seq(t: &Term) -> Vec<Term> {
     v
 }
 
+/// The same term in fresh cells: every variable and every cons cell is copied (`AsMut` does
+/// `Rc::make_mut`, i.e. copy-on-write of a shared cell; a copied variable keeps its VarID).
+fn detach(t: &LT) -> LT {
+    use proto_vulcan::lterm::LTermInner;
+    match t.as_ref() {
+        LTermInner::Cons(h, tl) => LTerm::cons(detach(h), detach(tl)),
+        LTermInner::Var(..) => {
+            let mut y = t.clone();
+            let _ = AsMut::<LTermInner<crate::build::U, crate::build::E>>::as_mut(&mut y);
+            y
+        }
+        _ => t.clone(),
+    }
+}
+
 fn check(a: &Term, b: &Term, c: &Term, extra: &[Term]) -> Option<(String, String, String)> {
     let env = Env::new();
     let bt = |t: &Term| build_term(t, &env);
@@ -85,6 +100,12 @@ fn check(a: &Term, b: &Term, c: &Term, extra: &[Term]) -> Option<(String, String
     chk!("a == a", true, la == la);
     chk!("a == rebuilt(a)", true, la == la2);
     chk!("a == clone(a)", true, la == la.clone());
+    // the same variables in copied cells (copy-on-write of a shared handle keeps the VarID)
+    let lad = detach(&la);
+    chk!("a == detached copy of a (variables and cons cells copied on write)", true, la == lad);
+    chk!("detached copy of a == a", true, lad == la);
+    chk!("hash(a) == hash(detached copy of a)", true, digest(&la) == digest(&lad));
+    chk!("detached(a) == b", a == b, lad == lb);
     chk!("a == b", a == b, la == lb);
     chk!("b == a", a == b, lb == la);
     chk!("b == c", b == c, lb == lc);
@@ -127,6 +148,7 @@ fn check(a: &Term, b: &Term, c: &Term, extra: &[Term]) -> Option<(String, String
         // contains
         for e in s.iter().chain(extra.iter()) {
             chk!(format!("a.contains({})", show_term(e, 0)), s.contains(e), la.contains(&bt(e)));
+            chk!(format!("a.contains(detached {})", show_term(e, 0)), s.contains(e), la.contains(&detach(&bt(e))));
         }
         // constructors
         let (items, tail) = a.uncons_all();
